@@ -2166,12 +2166,12 @@ def sv_order(idx):
     return "ascending" if idx == sorted(idx) else ("reversed" if idx == sorted(idx, reverse=True) else "shuffled")
 
 
-def check_views(ctx, pspec, idx):
+def check_views(ctx, pspec, idx, pedit=None):
     """pspec: spec of the parent (kind M or S); idx: the index list of the view"""
     tmp = Path(ctx.scratch) / f"c07-{os.getpid()}.mol2"
     tmpw = Path(ctx.scratch) / f"c07-{os.getpid()}-w.mol2"
-    case = {"layer": "SV", "spec": pspec, "idx": idx}
-    order = sv_order(idx)
+    case = {"layer": "SV", "spec": pspec, "idx": idx, "pedit": pedit}
+    order = sv_order(idx) + ("|after[parent-edited]" if pedit else "")
     ctx.count(evaluations=1, states=1, traces=1)
     ctx.nontrivial(("SV", digest(case)))
     pos = {i: p for p, i in enumerate(idx)}
@@ -2182,6 +2182,15 @@ def check_views(ctx, pspec, idx):
             parent, pref = build(pspec)
             fr = pref["frames"][0]
             sub = Substructure(parent, list(idx))
+            if pedit:
+                # the PARENT is edited after the view was made (a non-member atom is deleted / an atom is added):
+                # every member atom keeps its own data
+                if pedit[0] == "del":
+                    parent.del_atom(parent.atoms[pedit[1]])
+                elif parent.__class__ is Molecule:
+                    parent.add_atom(Atom(Element(17), label="Cl9"), [9.5, -9.5, 0.5], charge=0.0)
+                else:
+                    parent.add_atom(Atom(Element(17), label="Cl9"), [9.5, -9.5, 0.5])
             if src == "Substructure":
                 obj, kind = sub, "S"
             elif src == "Structure(sub)":
@@ -2232,7 +2241,75 @@ def gen_SV(seed, thorough):
     for kind in ("M", "S"):
         spec = mkspec(kind, "parent", atoms, [{"xyz": xyz, "q": q}], bonds)
         for idx in rot(lists, seed):
-            yield spec, idx
+            yield spec, idx, None
+        for idx in rot(lists[:8], seed):
+            for x in [x for x in range(5) if x not in idx]:
+                yield spec, idx, ["del", x]
+            yield spec, idx, ["add"]
+
+
+# =================================================================================================
+# SQ : partial charge VALUES: every 3-decimal value k/1000 in windows around 0, 1 e and 2 e (both signs), the
+#      half-way 4-decimal values between them, larger magnitudes - written by the Molecule and the
+#      ConformerEnsemble writer (100 atoms per molecule, primary entry points)
+# =================================================================================================
+def sq_values():
+    ks = list(range(0, 31)) + list(range(985, 1031)) + list(range(1995, 2016)) + [2500, 9999, 10001, 12345, 99999, 123456]
+    exact = [k / 1000 for k in ks] + [-k / 1000 for k in ks if k]
+    half = [(k + 0.5) / 1000 for k in list(range(0, 8)) + list(range(998, 1008)) + list(range(2000, 2008))]
+    half = half + [-h for h in half]
+    return [(q, True) for q in exact] + [(q, False) for q in half]
+
+
+def check_charge_values(ctx, kind, items):
+    """items: [(q, exactly_representable_with_3_decimals)]"""
+    n = len(items)
+    qs = [q for q, _ in items]
+    xyz = [[0.5 * i, -0.25 * i, 1.0] for i in range(n)]
+    frames = [{"xyz": xyz, "q": qs}]
+    if kind == "E":
+        frames.append({"xyz": xyz[::-1], "q": qs[::-1]})
+    spec = mkspec(kind, "charges", [(6, f"c{i}", REG, UNKG) for i in range(n)], frames, [])
+    case = {"layer": "SQ", "kind": kind, "items": [[q, e] for q, e in items]}
+    tmp = Path(ctx.scratch) / f"c07-{os.getpid()}-sq.mol2"
+    kn = KINDNAME[kind]
+    ctx.count(evaluations=1, states=1, traces=1, transitions=3)
+    ctx.nontrivial(("SQ", kind, digest(qs)))
+    try:
+        obj, ref = build(spec)
+    except UnderTestDeviation as e:
+        ctx.violation(f"charges|{kn}|setup-{e.symptom}", e.detail, case)
+        return
+    rname = kn + ".loads_mol2"
+    try:
+        t1 = do_write(obj, "dump_mol2[StringIO]", tmp)
+        r = do_read(rname, t1, tmp)
+        t2 = do_write(r, "dump_mol2[StringIO]", tmp)
+    except Exception as e:
+        ctx.violation(f"charges|{kn}|round-trip-raised-{exc(e)}", f"{exc(e)}: {e}", case)
+        return
+    syms = observe(ref, rname, r)
+    for s_, d in syms:
+        ctx.violation(f"charges|{kn}|{s_}", f"{kn} with charges above 1 e: {d}", case)
+    ctx.outcome(("SQ", kind, digest(t1), t1 == t2))
+    if t1 != t2:
+        cl = classify_text_diff(t1, t2)
+        l1 = [l for l in t1.split("\n") if "UNL1" in l]
+        l2 = [l for l in t2.split("\n") if "UNL1" in l]
+        ex = next(((a.split()[-1], b.split()[-1]) for a, b in zip(l1, l2) if a != b), ("?", "?"))
+        for c in cl:
+            ctx.violation(f"charges|{kn}|not-a-fixed-point:{c}", f"{kn}: first write has charge {ex[0]}, the second write of what was read has {ex[1]}", case,
+                          repro="import molli as ml\nfrom molli.chem import Atom\nm = ml.Molecule([Atom('C')], coords=[[0, 0, 0]])\nfor q in (1.003, 2.01, -1.0035):\n    m.atomic_charges = [q]; t1 = m.dumps_mol2(); t2 = ml.Molecule.loads_mol2(t1).dumps_mol2()\n    print(q, t1.splitlines()[8].split()[-1], t2.splitlines()[8].split()[-1])")
+    # a value the format can hold exactly (k/1000) must be written as itself
+    col = [l.split()[-1] for l in t1.split("\n") if "UNL1" in l][:n]
+    for (q, exact), txt in zip(items, col):
+        if exact and obj is not None:
+            want = f"{q:.3f}"
+            if want == "-0.000":
+                want = "0.000"
+            if txt != want:
+                ctx.violation(f"charges|{kn}|three-decimal-value-not-written-as-itself", f"{kn}: charge {q!r} is written as {txt}", case)
+                break
 
 
 # =================================================================================================
@@ -2286,6 +2363,14 @@ def _part_inner(ctx, part):
                 check_tb(ctx, "M", [reps[a], reps[b]], seed, bonded=True)
                 ctx.add_note("cases_TB2")
         return
+    if layer == "SQ":
+        vals = rot(sq_values(), seed * 17)
+        chunks = [vals[k : k + 100] for k in range(0, len(vals), 100)]
+        for idx in range(i, len(chunks), nparts):
+            for kind in ("M", "E"):
+                check_charge_values(ctx, kind, chunks[idx])
+                ctx.add_note("cases_SQ")
+        return
     if layer == "TR":
         trs = rot(all_triples(), seed * 7919)
         for idx in range(i, len(trs), nparts):
@@ -2297,10 +2382,10 @@ def _part_inner(ctx, part):
             ctx.add_note("cases_TR_objects")
         return
     if layer == "SV":
-        for idx, (spec, ilist) in enumerate(gen_SV(seed, thorough)):
+        for idx, (spec, ilist, pedit) in enumerate(gen_SV(seed, thorough)):
             if idx % nparts != i:
                 continue
-            check_views(ctx, spec, ilist)
+            check_views(ctx, spec, ilist, pedit)
             ctx.add_note("cases_SV")
         return
     if layer == "LC":
@@ -2391,6 +2476,8 @@ def run(ctx):
         "fixed point = the text of the first write is reproduced byte for byte by writing what the same class read from it",
         "loads_mol2/load_mol2 of a multi-molecule text return the first molecule (documented behaviour); loads_all/ConformerEnsemble return all, in order",
         "an ensemble with 0 conformers has no mol2 text and is out of scope",
+        "layer SQ: charge values k/1000 around 0, 1 e, 2 e (both signs), half-way 4-decimal values, magnitudes up to 123: read back within 1e-3, the text is a fixed point, and a value the "
+        "format holds exactly (k/1000) is written as itself (not one thousandth off)",
         "layer TR: the enum-valued atom fields may be held as enum members, plain ints or numpy ints (msgpack libraries return ints): every (element, atype, geom) triple must be typed "
         "the same in each representation, atom-locally and in molecules that went through pickle / MoleculeLibrary / ConformerLibrary",
         "layer SV: views as written objects - Substructure over ascending / reversed / shuffled index lists and Structure(sub) / Molecule(sub) copies; atom k of the text is "
@@ -2437,7 +2524,7 @@ def run(ctx):
     ctx.note("property_text_says_triples", "119 x 22 x 17; the tree under test has %d x %d x %d" % (nE, nT, nG))
     np_ = 16 if thorough else 8
     parts = []
-    for layer in ("TA", "TA2", "TR", "TB", "BL", "S0", "SX", "SV", "TC", "S4", "SH", "LC", "WE", "HW", "S2", "S1", "S3"):
+    for layer in ("TA", "TA2", "TR", "TB", "BL", "S0", "SQ", "SX", "SV", "TC", "S4", "SH", "LC", "WE", "HW", "S2", "S1", "S3"):
         n = 1 if layer in ("S0",) else np_ * (4 if layer in ("S1", "S3", "S2") or (thorough and layer == "HW") else 1)
         parts += [(layer, i, n) for i in range(n)]
     if thorough:
@@ -2472,12 +2559,14 @@ def replay(ctx, case):
         check_triple(ctx, tuple(int(x) for x in case["triple"]))
     elif layer == "TB":
         check_tb(ctx, case["kind"], [tuple(int(x) for x in t) for t in case["triples"]], ctx.seed, bonded=bool(case.get("bonded")))
+    elif layer == "SQ":
+        check_charge_values(ctx, case["kind"], [(fl(q), bool(e)) for q, e in case["items"]])
     elif layer == "TR":
         check_repr_local(ctx, tuple(int(x) for x in case["triple"]))
     elif layer == "TRO":
         check_repr_objects(ctx, [tuple(int(x) for x in t) for t in case["triples"]], ctx.seed)
     elif layer == "SV":
-        check_views(ctx, normspec(case["spec"]), [int(x) for x in case["idx"]])
+        check_views(ctx, normspec(case["spec"]), [int(x) for x in case["idx"]], case.get("pedit"))
     elif layer == "LC":
         if case["field"] == "name":
             check_lc(ctx, case["kind"], ("name", case["text"], None))
